@@ -8,6 +8,7 @@ import (
 	"math/rand"
 	"os"
 	"path/filepath"
+	"reflect"
 	"strings"
 
 	oci "github.com/opencontainers/runtime-spec/specs-go"
@@ -232,4 +233,61 @@ func hostileOCI(r *rand.Rand) *oci.Spec {
 		}
 	}
 	return s
+}
+
+// scribbleOCI overwrites, in place, everything an OCI spec reaches through a
+// slice, a pointer or a map: strings become "SCRIBBLED", numbers 4242. The OCI
+// spec is the caller's to do with as it pleases; whatever it shares storage
+// with (a cached Spec, say) shows the scribbling too.
+func scribbleOCI(o *oci.Spec) {
+	var walk func(v reflect.Value, settable bool)
+	walk = func(v reflect.Value, settable bool) {
+		switch v.Kind() {
+		case reflect.Ptr:
+			if !v.IsNil() {
+				walk(v.Elem(), true)
+			}
+		case reflect.Interface:
+			if !v.IsNil() {
+				walk(v.Elem(), false)
+			}
+		case reflect.Struct:
+			for i := 0; i < v.NumField(); i++ {
+				if v.Type().Field(i).IsExported() {
+					walk(v.Field(i), settable)
+				}
+			}
+		case reflect.Slice:
+			for i := 0; i < v.Len(); i++ {
+				walk(v.Index(i), true)
+			}
+		case reflect.Map:
+			if v.Type().Elem().Kind() == reflect.String {
+				for _, k := range v.MapKeys() {
+					v.SetMapIndex(k, reflect.ValueOf("SCRIBBLED").Convert(v.Type().Elem()))
+				}
+			}
+		case reflect.String:
+			if settable && v.CanSet() {
+				v.SetString("SCRIBBLED")
+			}
+		case reflect.Int, reflect.Int32, reflect.Int64:
+			if settable && v.CanSet() {
+				v.SetInt(4242)
+			}
+		case reflect.Uint32, reflect.Uint64, reflect.Uint16, reflect.Uint8:
+			if settable && v.CanSet() {
+				v.SetUint(42)
+			}
+		case reflect.Bool:
+			if settable && v.CanSet() {
+				v.SetBool(!v.Bool())
+			}
+		}
+	}
+	if o != nil {
+		// (only what hangs off slices, pointers and maps: a struct value reached from the
+		// top-level object directly is the caller's own copy anyway)
+		walk(reflect.ValueOf(o).Elem(), false)
+	}
 }
